@@ -265,8 +265,11 @@ def main():
         'assumptions': list(getattr(mod, 'ASSUMPTIONS', [])),
         'wall_s': round(wall, 2), 'violations': len(violations),
     }
-    os.makedirs(os.path.join(VERIF, 'evidence'), exist_ok=True)
-    with open(os.path.join(VERIF, 'evidence', f'{prop}.json'), 'w') as f:
+    # evidence/ only ever holds runs against /repo itself; a run against a scratch copy (EQSIG_REPO, maintenance) or a
+    # development run without build/audit (--no-build) writes elsewhere
+    ev_dir = os.path.join(VERIF, 'evidence') if (os.path.realpath(core.REPO) == os.path.realpath('/repo') and not args.no_build) else os.path.join(VERIF, '.work', 'evidence_scratch')
+    os.makedirs(ev_dir, exist_ok=True)
+    with open(os.path.join(ev_dir, f'{prop}.json'), 'w') as f:
         json.dump(jsonable(ev), f, indent=1, sort_keys=True)
     for v in violations:
         print(v)
